@@ -106,6 +106,16 @@ can end — a wait the lock graph does not show either).  The table is generated
 every role's entry points. -/
 theorem no_join_under_lock : Bobo.Gen.Locks.joinWaits = [] := by decide
 
+/-- **whoever waits for a thread to end holds no lock that thread ever takes** — for EVERY joining thread, the application's
+controller thread included (`close()` then `join()` is the documented shutdown): for each generated (lock held at a join,
+role of the thread waited for) no acquisition of that role is of that lock.  Otherwise the joined thread waits for the lock
+and its holder waits for the thread: two parties, one lock, no lock-order edge to show it. -/
+theorem join_targets_never_take_held_lock :
+    ∀ j ∈ Bobo.Gen.Locks.joinHolds, ∀ a ∈ Bobo.Gen.Locks.roleAcqs, a.1 = j.2.1 → a.2 ≠ j.1 := by decide
+
+/-- non-vacuity: there ARE joins under a lock (the controller's), and the threads they wait for do take locks -/
+example : Bobo.Gen.Locks.joinHolds ≠ [] ∧ (∃ a ∈ Bobo.Gen.Locks.roleAcqs, a.1 = "dist_incoming") := by decide
+
 /-- **methods are atomic steps**: every field of a lock-owning class that is written after its construction is read and
 written only with one of the object's own locks held, on every path from every thread role's entry point (the table of
 exceptions, generated from the source by following the call graph with the set of held locks, has one entry).  This is what
